@@ -206,6 +206,12 @@ def _arch_job(job):
             sem.assign_optimal_throughput(kern)
             ArchSemantics.get_throughput_sum(kern)
             rec["stage"] = "done"
+            # the cost of the entry is conserved: however the micro-ops are spread, the row adds up to their cycles
+            uops = ins.port_uops if not isinstance(ins.port_uops, dict) else list(ins.port_uops.values())[0]
+            cyc = sum(float(u[0]) for u in uops)
+            row2 = [float(v) for v in ins.port_pressure]
+            if abs(sum(row2) - cyc) > 0.011 * max(1, len(uops)) + 1e-9 or min(row2 + [0.0]) < -0.011:
+                rec["drift"] = {"cycles": cyc, "row_uniform": rec["row"], "row_balanced": row2}
         except Exception as ex:
             rec["err"] = "%s @%s" % (pc.exc_text(ex), pc.exc_where(ex))
         res["analysis"].append(rec)
@@ -529,6 +535,11 @@ def r3_shipped(run, tier):
         # instruction that matches a shipped form
         for rec in res["analysis"]:
             run.add_eval(1)
+            if "drift" in rec:
+                run.fail("C15:analysis-cost-not-conserved:%s:%s:%s" % (res["arch"], rec["name"], pc.sha(rec["sig"].split("|")[1:])),
+                         "%s: the balanced port pressure of an instruction bound to entry %s adds up to %.2f cy, its micro-ops take %.2f cy" % (
+                             res["arch"], rec["sig"][:120], sum(rec["drift"]["row_balanced"]), rec["drift"]["cycles"]),
+                         {"arch": res["arch"], "entry": rec["sig"], "drift": rec["drift"]})
             if "err" in rec:
                 nm = rec["name"]
                 run.fail("C15:analysis-exception:%s:%s:%s:%s:%s" % (
